@@ -15,14 +15,14 @@ for d in sorted(os.listdir(S), key=lambda x: (x.split("-")[0], int(x.split("-")[
     np_ = os.path.join(S, d, "notes.md")
     if os.path.exists(np_):
         title = re.sub(r"^#\s*(Change\s*\d+\s*[-:]*\s*)?", "", open(np_).readline().strip())
-    rows[m["breaks_property"]].append((d, bool(r.get("detected_by_target_check")), r.get("detected_by", []), bool(m.get("superseded")), title))
+    rows[m["breaks_property"]].append((d, bool(r.get("detected_by_target_check")), r.get("detected_by", []), bool(m.get("superseded")), title, bool(m.get("outside_claim"))))
 tot = det = 0
 print("| property | seeded changes | detected by its check | not detected | also detected by |")
 print("|---|---|---|---|---|")
 for p in sorted(rows):
     live = [x for x in rows[p] if not x[3]]
     d = [x for x in live if x[1]]
-    nd = [x[0] for x in live if not x[1]]
+    nd = [x[0] + (' (by design)' if x[5] else '') for x in live if not x[1]]
     sup = [x[0] for x in rows[p] if x[3]]
     cross = sorted({c for x in live for c in x[2] if c != p})
     tot += len(live); det += len(d)
